@@ -346,48 +346,116 @@ char *igris_f32toa(float32_t f, char *buf, int8_t precision)
     return buf;
 }
 
-static inline int64_t local_pow(int b, int n)
+/* Scans the decimal literal [+-]d*[.d*][(e|E)[+-]d+] (at least one mantissa
+ * digit) at the start of s. *mant gets its first 19 significant digits and
+ * *dexp the power of ten that goes with them, *neg the sign. Returns the end
+ * of the literal, or NULL if s does not start with one. An exponent marker
+ * that is not followed by digits is not part of the literal. */
+static const char *
+scan_decimal(const char *s, uint64_t *mant, int *dexp, uint8_t *neg)
 {
-    int64_t res = 1;
-    while (n--)
+    uint64_t m = 0;
+    int e = 0;
+    uint8_t any = 0;
+
+    *neg = 0;
+    if (*s == '+')
+        s++;
+    else if (*s == '-')
     {
-        res *= b;
+        s++;
+        *neg = 1;
     }
-    return res;
+
+    for (; *s >= '0' && *s <= '9'; ++s)
+    {
+        any = 1;
+        if (m <= (UINT64_MAX - 9) / 10)
+            m = m * 10 + (uint64_t)(*s - '0');
+        else
+            e++;
+    }
+
+    if (*s == '.')
+    {
+        const char *p = s + 1;
+        for (; *p >= '0' && *p <= '9'; ++p)
+        {
+            any = 1;
+            if (m <= (UINT64_MAX - 9) / 10)
+            {
+                m = m * 10 + (uint64_t)(*p - '0');
+                e--;
+            }
+        }
+        if (any)
+            s = p;
+    }
+
+    if (!any)
+        return NULL;
+
+    if (*s == 'e' || *s == 'E')
+    {
+        const char *p = s + 1;
+        int e_sign = 1;
+        int e_val = 0;
+
+        if (*p == '+')
+            p++;
+        else if (*p == '-')
+        {
+            p++;
+            e_sign = -1;
+        }
+
+        if (*p >= '0' && *p <= '9')
+        {
+            for (; *p >= '0' && *p <= '9'; ++p)
+            {
+                if (e_val < 100000)
+                    e_val = e_val * 10 + (*p - '0');
+            }
+            e += e_sign * e_val;
+            s = p;
+        }
+    }
+
+    *mant = m;
+    *dexp = e;
+    return s;
 }
 
 float32_t igris_atof32(const char *str, char **pend)
 {
-    if (!igris_isdigit(*str) && *str != '-')
+    uint64_t mant;
+    int dexp;
+    uint8_t minus;
+    const char *end = str ? scan_decimal(str, &mant, &dexp, &minus) : NULL;
+    float32_t ret;
+
+    if (!end)
     {
+        if (pend)
+            *pend = (char *)str;
         return 0;
     }
 
-    uint8_t minus = *str == '-' ? 1 : 0;
-    if (minus)
-        str++;
+    if (pend)
+        *pend = (char *)end;
 
-    char *end;
-    unsigned int u = igris_atou32(str, 10, &end);
-
-    str = end;
-    if (*str == '.')
+    ret = (float32_t)mant;
+    while (dexp > 0 && ret != 0 && !isinf(ret))
     {
-        int64_t d = igris_atou64(++str, 10, &end);
-        if (pend)
-            *pend = end;
-
-        float ret = (float)u + (float)((double)d /
-                                       (double)local_pow(10, (int)(end - str)));
-        return minus ? -ret : ret;
+        ret *= 10.0f;
+        dexp--;
     }
-
-    else
+    while (dexp < 0 && ret != 0)
     {
-        if (pend)
-            *pend = end;
-        return minus ? -(float)u : (float)u;
+        ret /= 10.0f;
+        dexp++;
     }
+    return minus ? -ret : ret;
 }
 
 #ifndef WITHOUT_FLOAT64
@@ -398,83 +466,35 @@ char *igris_f64toa(float64_t f, char *buf, int8_t precision)
 
 float64_t igris_atof64(const char *nptr, char **endptr)
 {
-    double val = 0.0;
-    int d = 0;
-    int sign = 1;
+    uint64_t mant;
+    int d;
+    uint8_t minus;
+    const char *end = nptr ? scan_decimal(nptr, &mant, &d, &minus) : NULL;
+    double val;
 
-    if (!nptr)
+    if (!end)
     {
+        if (endptr)
+            *endptr = (char *)nptr;
         return 0.0;
     }
 
-    if (*nptr == '+')
-    {
-        nptr++;
-    }
-    else if (*nptr == '-')
-    {
-        nptr++;
-        sign = -1;
-    }
+    if (endptr)
+        *endptr = (char *)end;
 
-    while (*nptr >= '0' && *nptr <= '9')
-    {
-        val = val * 10.0 + (*nptr - '0');
-        nptr++;
-    }
-
-    if (*nptr == '.')
-    {
-        nptr++;
-        while (*nptr >= '0' && *nptr <= '9')
-        {
-            val = val * 10.0 + (*nptr - '0');
-            nptr++;
-            d--;
-        }
-    }
-
-    if (*nptr == 'E' || *nptr == 'e')
-    {
-        int e_sign = 1;
-        int e_val = 0;
-
-        nptr++;
-        if (*nptr == '+')
-        {
-            nptr++;
-        }
-        else if (*nptr == '-')
-        {
-            nptr++;
-            e_sign = -1;
-        }
-
-        while ((*nptr >= '0' && *nptr <= '9'))
-        {
-            e_val = e_val * 10 + (*nptr - '0');
-            nptr++;
-        }
-        d += e_val * e_sign;
-    }
-
-    while (d > 0)
+    val = (double)mant;
+    while (d > 0 && val != 0 && !isinf(val))
     {
         val *= 10.0;
         d--;
     }
-    while (d < 0)
+    while (d < 0 && val != 0)
     {
         val *= 0.1;
         d++;
     }
 
-    if (endptr)
-    {
-        *endptr = (char *)nptr;
-    }
-
-    return sign * val;
+    return minus ? -val : val;
 }
 
 #ifndef WITHOUT_ATOF64
